@@ -4,19 +4,23 @@ sys.path.insert(0, os.path.join(os.path.dirname(os.path.abspath(__file__)), ".."
 import vf
 
 PID = "C18"
-MODS = ["a", "b", "c", "pkg", "pkg.sub", "other"]
-DEPS = {"a": ["b"], "b": [], "c": ["a"], "pkg": ["pkg.sub"], "pkg.sub": [], "other": []}
+MODS = ["a", "b", "c", "pkg", "pkg.sub", "other", "imp"]
+# imp tries `import frag` (a module that does not compile; the SyntaxError is swallowed) and then imports other.  A failing
+# load executes nothing and caches nothing, so frag does not appear in the model's dependency table.
+DEPS = {"a": ["b"], "b": [], "c": ["a"], "pkg": ["pkg.sub"], "pkg.sub": [], "other": [], "imp": ["other"]}
 BASE_MTIME = 1_000_000_000          # sources look old (as after `cp -p` / tar extraction): older than the installed jaxtyping
 
 
 def path_of(root, m):
-    return {"a": "a.py", "b": "b.py", "c": "c.py", "pkg": "pkg/__init__.py", "pkg.sub": "pkg/sub.py", "other": "other.py"}[m]
+    return {"a": "a.py", "b": "b.py", "c": "c.py", "pkg": "pkg/__init__.py", "pkg.sub": "pkg/sub.py", "other": "other.py", "imp": "imp.py"}[m]
 
 
 def write_module(root, m, version, stamp):
     p = os.path.join(root, path_of(root, m))
     os.makedirs(os.path.dirname(p), exist_ok=True)
     imports = "".join("import %s\n" % d for d in DEPS[m])
+    if m == "imp":
+        imports = "try:\n    import frag\nexcept SyntaxError:\n    pass\n" + imports
     open(p, "w").write("%sVERSION = %d\n\ndef f(x: int) -> int:\n    return x\n" % (imports, version))     # one digit: an edit keeps the size
     os.utime(p, (stamp, stamp))
 
@@ -24,6 +28,8 @@ def write_module(root, m, version, stamp):
 def make_forest(root):
     for i, m in enumerate(MODS):
         write_module(root, m, 1, BASE_MTIME + i)
+    open(root + "/frag.py", "w").write("def f(:\n    return 1\n")
+    os.utime(root + "/frag.py", (BASE_MTIME, BASE_MTIME))
     open(root + "/spyreg.py", "w").write("LOG = []\n")
     for k in ("A", "B"):
         open(root + "/spy%s.py" % k, "w").write("import spyreg\n\ndef check(fn, *a, **k):\n    spyreg.LOG.append((getattr(fn, '__module__', None), getattr(fn, '__qualname__', None), %r))\n    return fn\n" % k)
@@ -34,15 +40,15 @@ def gen_history(rng):
     for _ in range(rng.choice([2, 2, 3, 4, 5])):
         hooked = {}
         chk = rng.choice(["A", "A", "B", None])
-        names = [m for m in ["a", "b", "c", "pkg", "other"] if rng.random() < .45]
+        names = [m for m in ["a", "b", "c", "pkg", "other", "imp", "frag"] if rng.random() < .4]
         groups = [[names, chk]] if names else []
         if rng.random() < .2:
             extra = [m for m in ["a", "b", "other"] if m not in names and rng.random() < .5]
             if extra:
                 groups.append([extra, rng.choice(["A", "B"])])
-        order = rng.sample(["a", "b", "c", "pkg", "other"], rng.choice([1, 2, 3, 4]))
+        order = rng.sample(["a", "b", "c", "pkg", "other", "imp"], rng.choice([1, 2, 3, 4]))
         edits = [m for m in MODS if rng.random() < .12]
-        runs.append({"groups": groups, "order": order, "edits": edits})
+        runs.append({"groups": groups, "order": order, "edits": edits, "disable": rng.random() < .12})
     return runs
 
 
@@ -57,6 +63,12 @@ CATALOGUE = [
     # same-size source edit between two hooked runs
     [{"groups": [[["a", "b"], "A"]], "order": ["a"], "edits": []}, {"groups": [[["a", "b"], "A"]], "order": ["a"], "edits": ["a", "b"]}],
     [{"groups": [], "order": ["c"], "edits": []}, {"groups": [[["c", "a"], "B"]], "order": ["c"], "edits": ["a"]}, {"groups": [[["b"], "B"]], "order": ["c"], "edits": []}],
+    # a hooked module that fails to compile (its importer swallows the error), followed by the first import of an un-hooked module; later hook that one
+    [{"groups": [[["frag"], "A"]], "order": ["imp"], "edits": []}, {"groups": [[["other", "imp"], "A"]], "order": ["imp"], "edits": []}],
+    [{"groups": [[["frag", "imp"], "B"]], "order": ["imp", "a"], "edits": []}, {"groups": [[["a", "b", "other"], "B"]], "order": ["a", "other"], "edits": []}],
+    # a run with JAXTYPING_DISABLE=1 in the environment, then the identical configuration with checking on (and the converse)
+    [{"groups": [[["a", "b"], "A"]], "order": ["a"], "edits": [], "disable": True}, {"groups": [[["a", "b"], "A"]], "order": ["a"], "edits": []}],
+    [{"groups": [[["pkg"], "B"]], "order": ["pkg"], "edits": []}, {"groups": [[["pkg"], "B"]], "order": ["pkg"], "edits": [], "disable": True}, {"groups": [[["pkg"], "B"]], "order": ["pkg"], "edits": ["pkg.sub"]}],
 ]
 
 
@@ -102,14 +114,17 @@ def main():
                     stamps[m] += 100
                     write_module(root, m, versions[m], stamps[m])
                 cfg = {"groups": run["groups"], "order": run["order"], "modules": MODS}
-                p = subprocess.run([vf.PY, os.path.join(vf.VERIF, "harness", "impl_hookcache.py"), root, json.dumps(cfg)], capture_output=True, text=True, env=env, timeout=300, cwd=root)
+                renv = dict(env)
+                if run.get("disable"):
+                    renv["JAXTYPING_DISABLE"] = "1"
+                p = subprocess.run([vf.PY, os.path.join(vf.VERIF, "harness", "impl_hookcache.py"), root, json.dumps(cfg)], capture_output=True, text=True, env=renv, timeout=300, cwd=root)
                 lines = [l for l in p.stdout.splitlines() if l.startswith("{")]
                 if p.returncode != 0 or not lines:
                     return {"error": (p.stderr or p.stdout)[-600:]}
                 r = json.loads(lines[-1])
                 if "error" in r:
                     return r
-                out.append({"executed": r["executed"], "pycs": r["pycs"], "versions": dict(versions), "hooked": hooked_map(run["groups"])})
+                out.append({"executed": r["executed"], "pycs": r["pycs"], "versions": dict(versions), "hooked": hooked_map(run["groups"]), "disable": bool(run.get("disable"))})
             return {"runs": out}
         finally:
             shutil.rmtree(root, ignore_errors=True)
@@ -132,13 +147,15 @@ def main():
             for mod, e in sorted(got.items()):
                 want_kind = ("hooked:%s" % x["hooked"][mod]) if mod in x["hooked"] else "plain"
                 R.count("executed:" + e["kind"].split(":")[0])
+                if x["disable"] and e["version"] == x["versions"][mod]:
+                    continue        # checking switched off for this run: instrumented or not, it behaves like plain code (C19); only staleness is judged
                 if e["kind"] != want_kind or e["version"] != x["versions"][mod]:
                     R.violation("property", "run %d of the history executes module %s as %s from source version %d; the current hook configuration and source call for %s from version %d. History: %s" % (
                         k + 1, mod, e["kind"], e["version"], want_kind, x["versions"][mod], json.dumps(h)), {"history": h, "run": k, "module": mod, "got": e, "expected": {"kind": want_kind, "version": x["versions"][mod]}},
                         key={"kind": "wrong-code", "direction": "%s-instead-of-%s" % (e["kind"].split(":")[0], want_kind.split(":")[0]), "stale": e["version"] != x["versions"][mod]})
             mexec = dict((y.split("=")[0], y.split("=")[1]) for y in mruns[k].split(",")) if k < len(mruns) and mruns[k] else {}
             gexec = {mod: "%s@%d" % (e["kind"], e["version"]) for mod, e in got.items()}
-            if mexec != gexec:
+            if mexec != gexec and not x["disable"]:
                 R.violation("correspondence", "run %d: model (patch around %s) predicts %s, implementation %s. History: %s" % (k + 1, scope, mexec, gexec, json.dumps(h)), {"history": h, "run": k, "model": mexec, "impl": gexec},
                             key={"kind": "model"}, no_input=True)
         if len(h) >= 2 and any(run["groups"] for run in h):
@@ -150,7 +167,7 @@ def main():
                     {"theorem_file": "coq/props/C18.v", "log": R.broken_proof}, no_input=not any(v["kind"] == "property" for v in R.violations))
     R.coverage.update(evaluations=nruns, distinct_nontrivial=len(nontriv), samples=samples, histories=len(hists),
                       rule="%d catalogue + %d PRNG histories of 2-5 runs over one scratch directory with a shared __pycache__; every run is a fresh interpreter (bytecode writing enabled) choosing hooked subsets (one or two install calls), a spy typechecker or None, an import order with nested imports (a->b, c->a, pkg->pkg.sub), "
-                           "after optional same-size source edits with old mtimes. Oracle = the property itself: per run and module, instrumented? by which checker? from the current source version? Model (Coq run_history with the patched method read from the source) compared per run. non-trivial = history with >= 2 runs and a hook" % (len(CATALOGUE), n))
+                           "after optional same-size source edits with old mtimes; a module that does not compile (hooked or not, its importer swallows the SyntaxError); runs with JAXTYPING_DISABLE=1 (their own instrumentation is not judged, what they leave in the cache is). Oracle = the property itself: per run and module, instrumented? by which checker? from the current source version? Model (Coq run_history with the patched method read from the source) compared per run. non-trivial = history with >= 2 runs and a hook" % (len(CATALOGUE), n))
     R.assumptions += ["CPython validates a .pyc by source mtime and size (modelled as version equality)", "md5 of the typechecker string treated as injective"]
     sys.exit(R.finish())
 
